@@ -418,6 +418,64 @@ template<class Rep, int E, int Radix>
     }
 }
 
+// ---- bitwise operators between scaled_integers of different exponents (and with a built-in operand) ----------
+// hand-written form: align both reps to the smaller exponent m, apply the integer operator; the result is that
+// integer at exponent m. Compared by VALUE (rep x 2^exponent), so a right rep under a wrong scale is seen.
+template<class Rep, int E1, int E2>
+[[gnu::noinline]] void prog_scaled_bitwise()
+{
+    using S1 = scaled_integer<Rep, power<E1>>;
+    using S2 = scaled_integer<Rep, power<E2>>;
+    constexpr int M = E1 < E2 ? E1 : E2;
+    std::string name = std::string("scaled_bitwise<") + vf::tn<Rep>() + "," + std::to_string(E1) + "," + std::to_string(E2) + ">";
+    bool full = vals::is_full<Rep>(8);
+    if (!vf::begin(name, full)) return;
+    using PR = decltype(+Rep{});
+    auto const As = vals::space<Rep>(8, VF_TIER ? 1 : 3);
+    for (Rep a : As) {
+        if (!vf::my_row()) continue;
+        for (Rep b : As) {
+            auto id = [&] { return vf::to_s(a) + "," + vf::to_s(b); };
+            if (vf::replaying() && !vf::case_selected(id())) continue;
+            Big A = Big(a).shl(E1 - M), B = Big(b).shl(E2 - M);
+            // the aligned operands must fit the promoted rep (the hand-written code shifts in that type), non-negative
+            // operands only for signed reps (bitwise operators on negative values are implementation-defined territory)
+            if (!A.template fits_type<PR>() || !B.template fits_type<PR>() || a < 0 || b < 0) {
+                vf::skip_pre();
+                continue;
+            }
+            vf::counted(E1 != E2);
+            S1 x = cnl::_impl::from_rep<S1>(a);
+            S2 y = cnl::_impl::from_rep<S2>(b);
+            auto check = [&](const char* op, Big const& exact_rep, auto&& f) {
+                Rat got;
+                vf::Outcome o = vf::run([&] { got = cv::value(f()); });
+                vf::validated();
+                Rat want = Rat::scaled(exact_rep, 2, M);
+                if (!o.ok() || got != want) {
+                    vf::outcome(o.ok() ? "wrong_bitwise" : o.str());
+                    vf::violation(std::string(op) + "/" + (o.ok() ? "value" : o.str()) + (E1 < E2 ? "/finer_left" : (E1 > E2 ? "/finer_right" : "/same_exponent")), id(),
+                                  id() + " " + op + ": got " + (o.ok() ? got.str() : o.str()) + ", shift-and-operate gives " + want.str());
+                } else
+                    vf::outcome(std::string("ok_") + op);
+            };
+            auto bits = [](Big const& p, Big const& q, int op) {
+                unsigned __int128 u = static_cast<unsigned __int128>(p.low128()), v = static_cast<unsigned __int128>(q.low128());
+                unsigned __int128 r = op == 0 ? (u & v) : (op == 1 ? (u | v) : (u ^ v));
+                return Big(r);
+            };
+            check("and", bits(A, B, 0), [&] { return x & y; });
+            check("or", bits(A, B, 1), [&] { return x | y; });
+            check("xor", bits(A, B, 2), [&] { return x ^ y; });
+            if constexpr (E2 == 0) {
+                // built-in right / left operand (exponent 0)
+                check("and_builtin_right", bits(A, B, 0), [&] { return x & b; });
+                check("or_builtin_left", bits(A, B, 1), [&] { return b | x; });
+            }
+        }
+    }
+}
+
 template<class N>
 void nest_group_a()
 {
@@ -495,6 +553,17 @@ static void group()
     prog_scaled<u32, -5, 3>();
     prog_scaled<i64, -20, 2>();
     prog_scaled<i64, -6, 10>();
+#elif VF_PART == 14
+    prog_scaled_bitwise<u8, -3, 0>();
+    prog_scaled_bitwise<u8, 0, -3>();
+    prog_scaled_bitwise<i8, -2, 0>();
+    prog_scaled_bitwise<u8, -1, -4>();
+    prog_scaled_bitwise<u8, 2, 2>();
+    prog_scaled_bitwise<u16, -8, 0>();
+    prog_scaled_bitwise<u16, 0, -8>();
+    prog_scaled_bitwise<i32, -8, 0>();
+    prog_scaled_bitwise<u32, -4, -12>();
+    prog_scaled_bitwise<u64, -16, 0>();
 #endif
 }
 VF_GROUP(group);
